@@ -31,6 +31,7 @@ KNOWN_CLASSES = {
     8: "not-of-junction",
     16: "not-of-info",
     32: "three-tables",
+    256: "negated-attribute-null",
 }
 
 
